@@ -68,6 +68,12 @@ def base_md(backend: str) -> List[Dict[str, Any]]:
     out.append({"metadata_type": "add_cpp_function", "name": "fv_attr", "include_files": [], "arguments": ["scale"],
                 "code": [f"auto result = obj_j{acc}pt() * scale;"], "return_type": "double", "method_object": "obj_j",
                 "instance_object": "xAOD::Jet"})
+    # two function-style plug-ins with different code: each call is rewritten with ITS function's code, wherever the
+    # declarations sit in the chain
+    out.append({"metadata_type": "add_cpp_function", "name": "fv_scale", "include_files": [], "arguments": ["v"],
+                "code": ["auto result = v * 2.0;"], "return_type": "double"})
+    out.append({"metadata_type": "add_cpp_function", "name": "fv_shift", "include_files": [], "arguments": ["v"],
+                "code": ["auto result = v + 1000.0;"], "return_type": "double"})
     return out
 
 
@@ -343,6 +349,9 @@ class QGen:
                 self.op("method-plugin")
                 return f"{o}.fv_attr({self.rng.choice(['2.0', '0.5'])})"
             return f"{o}.{self.rng.choice(['pt', 'eta', 'phi'])}()"
+        if r < 0.36:
+            self.op("function-plugin")
+            return f"{self.rng.choice(['fv_scale', 'fv_shift'])}({o}.{self.rng.choice(['pt', 'eta'])}())"
         if r < 0.40:
             return f"{o}.pt() / 1000.0"
         if r < 0.50 and nums:
@@ -999,6 +1008,19 @@ def check(tier: str, seed: int, t0: float, build: core.BuildStatus) -> int:
                     violation("c08:metadata-position", f"moving MetaData calls along the chain (same relative order, positions {pos}) changes the translation: {describe(r_ref, rb)}; query = {base}",
                               {"kind": "pair", "variant": "metadata", "backend": backend, "a": ref, "b": b_src,
                                "broken": "oracle: equal packages wherever the MetaData calls sit (third-party extract_metadata, differential only)"})
+            # (3b) two declarations of DIFFERENT C++ functions swapped: each call still gets its own function's code
+            names = [m.get("name") for m in mds]
+            if "fv_scale" in names and "fv_shift" in names:
+                i1, i2 = names.index("fv_scale"), names.index("fv_shift")
+                mds2 = list(mds)
+                mds2[i1], mds2[i2] = mds2[i2], mds2[i1]
+                b_src = src_of(with_metadata(tree, mds2, [0] * len(mds2)))
+                rb = run_query(b_src, backend)
+                record("metadata", r_ref, rb)
+                if r_ref != rb:
+                    violation("c08:metadata-position", f"swapping the declarations of two different C++ functions changes the translation: {describe(r_ref, rb)}; query = {base}",
+                              {"kind": "pair", "variant": "metadata", "backend": backend, "a": ref, "b": b_src,
+                               "broken": "oracle: equal packages whichever of two independent function declarations comes first"})
             # (4) fusion
             fused, nf = fuse_variant(tree)
             if nf:
